@@ -141,16 +141,19 @@ func (c *Ctx) outputRules(r *Report) {
 		r.Check(a && b, "OUT-gate", c.fname(pe), what+" REQ(PrintErrors ∧ err != nil)", c.ipos(in), "both edges necessary", fmt.Sprintf("PrintErrors necessary=%v, err!=nil necessary=%v", a, b))
 		isHelpT := litHas(true, "eq(ErrHelp, Error.Type(assert[*Error](P1)")
 		isErrT := litHas(true, "assert[*Error](P1)#1")
-		switch {
-		case strings.Contains(w, "Stdout"):
-			_, x := c.Requires(pe, isInstr(in), isErrT, nil)
-			_, y := c.Requires(pe, isInstr(in), isHelpT, nil)
-			r.Check(x && y, "OUT-gate", c.fname(pe), "stdout only for ErrHelp", c.ipos(in), "REQ(err is *Error) ∧ REQ(Type == ErrHelp)", fmt.Sprintf("*Error necessary=%v, ErrHelp necessary=%v", x, y))
-		case strings.Contains(w, "Stderr"):
-			_, x := c.Requires(pe, isInstr(in), anyLit(litHas(false, "assert[*Error](P1)#1"), litHas(false, "eq(ErrHelp, Error.Type(assert[*Error](P1)")), nil)
-			r.Check(x, "OUT-gate", c.fname(pe), "stderr only for non-help errors", c.ipos(in), "REQ(¬*Error ∨ Type != ErrHelp)", "stderr reachable for a help error")
-		default:
-			r.Fail("OUT-gate", c.fname(pe), what, c.ipos(in), "printError writes to something other than os.Stdout/os.Stderr")
+		notHelp := anyLit(litHas(false, "assert[*Error](P1)#1"), litHas(false, "eq(ErrHelp, Error.Type(assert[*Error](P1)"))
+		// the stream written to: each way it can be chosen (directly, or through a local picked beforehand)
+		for _, o := range c.originsOf(ci.Common().Args[0], in) {
+			ot := o.Term
+			switch {
+			case strings.Contains(ot, "Stdout"):
+				x, y := c.reqAt(pe, o, isErrT), c.reqAt(pe, o, isHelpT)
+				r.Check(x && y, "OUT-gate", c.fname(pe), "stdout only for ErrHelp", c.ipos(in), "REQ(err is *Error) ∧ REQ(Type == ErrHelp)", fmt.Sprintf("*Error necessary=%v, ErrHelp necessary=%v", x, y))
+			case strings.Contains(ot, "Stderr"):
+				r.Check(c.reqAt(pe, o, notHelp), "OUT-gate", c.fname(pe), "stderr only for non-help errors", c.ipos(in), "REQ(¬*Error ∨ Type != ErrHelp)", "stderr reachable for a help error")
+			default:
+				r.Fail("OUT-gate", c.fname(pe), what, c.ipos(in), "printError writes to something other than os.Stdout/os.Stderr: "+trunc(ot, 60))
+			}
 		}
 	}
 	// wrapError turns a foreign error into ErrUnknown: it is reserved for the errors of option parsing in the
